@@ -14,3 +14,28 @@ Print Assumptions C06_revocation_removes_all.
 Theorem C06_nongrant_is_everything_else : forall a, can_get a = Granted <-> exists call, a = AResult true call.
 Proof. exact can_get_granted_iff. Qed.
 Print Assumptions C06_nongrant_is_everything_else.
+
+From RG Require Import Comp.SubFsm Proofs.SubFsmProofs.
+
+(* On the subscription machine (tied to the code by the `subfsm` direct drive), in every state: *)
+
+(* while a re-access check is pending, nothing but its answer delivers an event to the client; *)
+Theorem C06_pending_recheck_blocks_events : forall s o,
+  qR s = true -> (forall a, o <> OpAnswer a) -> has_event (snd (step s o)) = false.
+Proof. exact pending_recheck_blocks_events. Qed.
+Print Assumptions C06_pending_recheck_blocks_events.
+
+(* a trigger that finds the subscription busy (loading, or re-checking already) is remembered; *)
+Theorem C06_trigger_while_busy_is_deferred : forall s,
+  st s <> Disposed -> queueing s = true -> fReacc (fst (step s OpReaccess)) = true /\ snd (step s OpReaccess) = [].
+Proof. exact trigger_while_busy_is_deferred. Qed.
+Print Assumptions C06_trigger_while_busy_is_deferred.
+
+(* a non-grant verdict revokes every direct subscription with one unsubscribe event carrying the reason, unregisters the
+   subscription and delivers none of the held events. *)
+Theorem C06_nongrant_revokes_all : forall s a,
+  st s <> Disposed -> 0 < outst s -> acbs s = [KValidate] -> 0 < direct s -> can_get a <> VOk ->
+  let '(s', o) := step s (OpAnswer a) in
+  In (OUnsubEvent (can_get a)) o /\ has_event o = false /\ direct s' = 0 /\ reg s' = false /\ st s' = Disposed.
+Proof. exact nongrant_revokes_all. Qed.
+Print Assumptions C06_nongrant_revokes_all.
